@@ -1,35 +1,89 @@
 ------------------------------ MODULE McTrace ------------------------------
-(* The multicast DATA path of a device built with the `multicast` cargo     *)
-(* feature (LoRaWAN Remote Multicast Setup, TS005): which frames of a        *)
-(* multicast group the device acts upon.  C05 read for a multicast session:  *)
-(* a frame is accepted exactly when its MIC verifies under the group's       *)
-(* McNetSKey for the 32-bit counter N that matches the 16-bit wire counter   *)
-(* and is the next the group may use or a later one (minMcFCount at set-up,  *)
-(* afterwards last accepted + 1), with N < maxMcFCount; it then remembers N, *)
-(* delivers the payload decrypted with the McAppSKey under that same N, and  *)
-(* no frame is ever accepted twice.                                          *)
+(* The multicast part of a device built with the `multicast` cargo feature  *)
+(* (LoRaWAN Remote Multicast Setup, TS005): the group table, the remote      *)
+(* set-up handler that maintains it, and the data path that consults it.     *)
 (*                                                                           *)
-(* The trace: histories of `vh mcdata` - a Class C device, a group set up by *)
-(* an authentic McGroupSetupReq (event mc_group: what the network holds; the *)
-(* session keys are re-derived here with Aes.tla from the GenAppKey and the  *)
-(* encrypted McKey, per TS005 / LoRaWAN 1.0.x), then one heard frame per     *)
-(* rxc_listen call.                                                          *)
+(* GROUP TABLE.  Four slots (McGroupID 0..3), each empty or holding a group: *)
+(* McAddr, McNetSKey, McAppSKey, the next frame counter the group may use    *)
+(* and maxMcFCount.                                                          *)
+(*                                                                           *)
+(* SET-UP HANDLER.  The FRMPayload of a unicast downlink that the device     *)
+(* accepts (authentic under its own session for the reconstructed counter -  *)
+(* Mac!NextFcnt - in a receive window or while listening as Class C) on      *)
+(* FPort 200 is a stream of set-up commands (MacCmds.tla, set mc_down),      *)
+(* taken in order up to the first unknown or truncated one:                  *)
+(*   PackageVersionReq  -> PackageVersionAns (package 2, version 2)          *)
+(*   McGroupStatusReq   -> McGroupStatusAns: NbTotalGroups = groups defined, *)
+(*                         AnsGroupMask = requested and defined, one record  *)
+(*                         (id, McAddr) per reported group in id order       *)
+(*   McGroupSetupReq    -> the slot named by the request holds the group of  *)
+(*                         the request (session keys by the TS005 key        *)
+(*                         hierarchy from the GenAppKey, re-derived here     *)
+(*                         with Aes.tla; the counter starts at minMcFCount); *)
+(*                         a group already in the slot is replaced;          *)
+(*                         McGroupSetupAns with the id                       *)
+(*   McGroupDeleteReq   -> the slot is emptied, McGroupDeleteAns with the id;*)
+(*                         for an empty slot McGroupDeleteAns with the id    *)
+(*                         AND the McGroupUndefined bit                      *)
+(*   McClassC/BSessionReq -> not implemented by the library: no answer, no   *)
+(*                         effect (stated as built)                          *)
+(* The answers, in request order, are the FRMPayload (under the AppSKey) of   *)
+(* an uplink on FPort 200 that the device transmits at once.  At most 242    *)
+(* octets of answers fit one uplink: handling stops at the first answer that *)
+(* does not fit (only answers of requests without effect are made to         *)
+(* overflow in the recorded histories; what a set-up or delete request whose *)
+(* answer does not fit should do is not specified here).                     *)
+(*                                                                           *)
+(* DATA PATH (C05 read for a multicast session).  A frame heard on an FPort  *)
+(* of the multicast range (201..205) - in RX1, RX2, between the windows or   *)
+(* outside a procedure - belongs to the group with the lowest id whose       *)
+(* McAddr it carries; it is accepted exactly when its MIC verifies under the *)
+(* group's McNetSKey for the 32-bit counter N that matches the 16-bit wire   *)
+(* counter and is the next the group may use or a later one, with            *)
+(* N < maxMcFCount; the group then remembers N, the payload is decrypted     *)
+(* with the McAppSKey under that same N and delivered, and no frame is ever  *)
+(* accepted twice.  Frames of a deleted or replaced group are ignored.       *)
+(*                                                                           *)
+(* The trace: histories of `vh mcdata` on the feature binary.  Every frame   *)
+(* the device hears and every frame it transmits is in the call list of the  *)
+(* event; the specification decodes them itself (Codec.tla) - the recorder   *)
+(* says nothing about what was set up, except in the cross-check event       *)
+(* `mc_group` (the session keys the network side used must be the ones       *)
+(* derived here).  The C06 clauses (uplink counters strictly increase, MIC   *)
+(* under the counter on the wire) are held on the same traces by             *)
+(* CertTrace.tla.                                                            *)
 EXTENDS Mac, Codec, Json, IOUtils, TLCExt
 
-Rec == ndJsonDeserialize(IOEnv.TRACE)
+MCmd == INSTANCE MacCmds
 
+Rec == ndJsonDeserialize(IOEnv.TRACE)
 VARIABLES l,
-          grp,    \* the group: [on, g, addr, nwk, app, next, max] (next, max: <<hi16, lo16>>)
-          dls     \* payloads delivered to the application and not taken yet (the device keeps at most 4)
-vars == <<l, grp, dls>>
+          grps,   \* the group table: <<slot 0, .., slot 3>>, each [on, g, addr, nwk, app, next, max] (next, max: <<hi16, lo16>>)
+          pend,   \* answers of the set-up handler not transmitted yet
+          dls,    \* payloads delivered to the application and not taken yet (the device keeps at most 4)
+          prev,   \* the unicast session as snapshotted after the previous event
+          gak     \* the GenAppKey installed in the device (reset event)
+vars == <<l, grps, pend, dls, prev, gak>>
+
+\* signatures of the open findings (known_findings.json): a deviation is followed only when its signature is listed
+Allowed == IF "KNOWN" \in DOMAIN IOEnv THEN JsonDeserialize(IOEnv.KNOWN) ELSE <<>>
+IsAllowed(sig) == \E i \in 1..Len(Allowed) : Allowed[i] = sig
+Known(sig, detail) == PrintT(<<"KNOWN", l, sig, detail>>)
+\* KNOWN FINDING (open, S40): McGroupDeleteAns for a slot that holds no group carries the McGroupUndefined bit but
+\* not the McGroupID of the request (always 0)
+SigDeleteAnsId == "mc-delete-ans-undefined-drops-group-id"
 
 Chk(name, exp, obs) ==
     IF exp = obs THEN TRUE
     ELSE PrintT(<<"MISMATCH", l, name, "expected", exp, "observed", obs>>) /\ FALSE
 ChkT(name, cond) ==
     IF cond THEN TRUE ELSE PrintT(<<"MISMATCH", l, name, "expected", TRUE, "observed", FALSE>>) /\ FALSE
+\* (frames are independent observations within a history: a failed check is printed - the runner reports it with
+\* the history - and validation goes on with the state the SPECIFICATION prescribes; `Soft` never blocks)
+Soft(ok) == IF ok THEN TRUE ELSE TRUE
 
 NoGroup == [on |-> FALSE, g |-> 0, addr |-> <<>>, nwk |-> <<>>, app |-> <<>>, next |-> <<0, 0>>, max |-> <<0, 0>>]
+NoGroups == <<NoGroup, NoGroup, NoGroup, NoGroup>>
 McZero16 == <<0, 0, 0, 0, 0, 0, 0, 0, 0, 0, 0, 0, 0, 0, 0, 0>>
 
 Block(tag, addr) == <<tag>> \o addr \o <<0, 0, 0, 0, 0, 0, 0, 0, 0, 0, 0>>
@@ -47,76 +101,166 @@ U32Inc(c) == IF c = <<65535, 65535>> THEN c ELSE IF c[2] = 65535 THEN <<c[1] + 1
 Rebuild(next, wire) ==
     IF wire >= next[2] THEN <<next[1], wire>>
     ELSE IF next[1] < 65535 THEN <<next[1] + 1, wire>> ELSE <<>>
+\* 4 octets, little-endian -> <<hi16, lo16>>
+Le32(p, off) == <<p[off + 2] + 256 * p[off + 3], p[off] + 256 * p[off + 1]>>
 
 McPorts == 201..205
+SetupPort == 200
+MaxAnswers == 242
 PushDl(q, d) == IF Len(q) >= 4 THEN q ELSE Append(q, d)
 RECURSIVE Rev(_)
 Rev(s) == IF s = <<>> THEN <<>> ELSE Rev(Tail(s)) \o <<s[1]>>
 
-\* ---------------------------------------------------------------- events
-\* (frames are independent observations within a history: a failed check is printed - the runner reports it with
-\* the history - and validation goes on with the group state the SPECIFICATION prescribes; `Soft` never blocks)
-Soft(ok) == IF ok THEN TRUE ELSE TRUE
+\* ---------------------------------------------------------------- the set-up handler
+Defined(t) == {g \in 0..3 : t[g + 1].on}
+Bit(x, g) == (x \div (2 ^ g)) % 2
+RECURSIVE StatusRecords(_, _, _)
+StatusRecords(t, mask, g) ==
+    IF g > 3 THEN <<>>
+    ELSE (IF Bit(mask, g) = 1 /\ t[g + 1].on THEN <<g>> \o t[g + 1].addr ELSE <<>>) \o StatusRecords(t, mask, g + 1)
+AnsMask(t, mask) == (IF Bit(mask, 0) = 1 /\ t[1].on THEN 1 ELSE 0) + (IF Bit(mask, 1) = 1 /\ t[2].on THEN 2 ELSE 0)
+                  + (IF Bit(mask, 2) = 1 /\ t[3].on THEN 4 ELSE 0) + (IF Bit(mask, 3) = 1 /\ t[4].on THEN 8 ELSE 0)
+
+\* one command (CID at p[off], payload behind it) on table t: [t, ans, setup]  (setup: id of a group set up, or -1)
+\* dev: the answers as the open finding S40 makes them (used only to recognise that finding)
+OneCmd(t, p, off, cid, dev) ==
+    CASE cid = 0 -> [t |-> t, ans |-> <<0, 2, 2>>, setup |-> -1]
+      [] cid = 1 -> LET mask == p[off + 1] % 16 IN
+                    [t |-> t, ans |-> <<1, 16 * Cardinality(Defined(t)) + AnsMask(t, mask)>> \o StatusRecords(t, mask, 0), setup |-> -1]
+      [] cid = 2 -> LET g == p[off + 1] % 4
+                        addr == SubSeq(p, off + 2, off + 5)
+                        keyenc == SubSeq(p, off + 6, off + 21) IN
+                    [t |-> [t EXCEPT ![g + 1] = [on |-> TRUE, g |-> g, addr |-> addr,
+                                                 nwk |-> McNetSKeyOf(gak, keyenc, addr), app |-> McAppSKeyOf(gak, keyenc, addr),
+                                                 next |-> Le32(p, off + 22), max |-> Le32(p, off + 26)]],
+                     ans |-> <<2, g>>, setup |-> g]
+      [] cid = 3 -> LET g == p[off + 1] % 4 IN
+                    IF t[g + 1].on THEN [t |-> [t EXCEPT ![g + 1] = NoGroup], ans |-> <<3, g>>, setup |-> -1]
+                    ELSE [t |-> t, ans |-> <<3, 4 + (IF dev THEN 0 ELSE g)>>, setup |-> -1]
+      [] OTHER -> [t |-> t, ans |-> <<>>, setup |-> -1]     \* McClassCSessionReq, McClassBSessionReq: not implemented
+
+RECURSIVE Handle(_, _, _, _, _, _, _)
+\* items: MacCmds!Items of the payload; k: next item; off: its offset.  Result [t, pend, setup]
+Handle(t, pnd, p, items, k, off, dev) ==
+    IF k > Len(items) \/ items[k][1] # 1 THEN [t |-> t, pend |-> pnd, setup |-> -1]
+    ELSE LET r == OneCmd(t, p, off, items[k][2], dev) IN
+         IF Len(pnd) + Len(r.ans) > MaxAnswers THEN [t |-> t, pend |-> pnd, setup |-> -1]
+         ELSE LET rest == Handle(r.t, pnd \o r.ans, p, items, k + 1, off + items[k][3], dev) IN
+              [t |-> rest.t, pend |-> rest.pend, setup |-> IF rest.setup >= 0 THEN rest.setup ELSE r.setup]
+
+SetupMessage(t, pnd, p, dev) == Handle(t, pnd, p, MCmd!Items("mc_down", p), 1, 1, dev)
+
+\* ---------------------------------------------------------------- the data path
+RECURSIVE GroupOf(_, _, _)
+GroupOf(t, addr, g) == IF g > 3 THEN -1 ELSE IF t[g + 1].on /\ t[g + 1].addr = addr THEN g ELSE GroupOf(t, addr, g + 1)
+
+\* verdict on one heard frame of the multicast port range: [kind: "accept" | "atmax" | "ignore", g, n]
+Verdict(t, b) ==
+    LET f == Fields(b)
+        g == GroupOf(t, f.addr, 0) IN
+    IF g < 0 THEN [kind |-> "ignore", g |-> -1, n |-> <<>>]
+    ELSE LET grp == t[g + 1]
+             n == Rebuild(grp.next, f.fcnt16)
+             authentic == n # <<>> /\ MicOk(b, grp.nwk, n)
+         IN IF authentic /\ U32Lt(n, grp.max) THEN [kind |-> "accept", g |-> g, n |-> n]
+            ELSE IF authentic /\ n = grp.max THEN [kind |-> "atmax", g |-> g, n |-> n]
+            ELSE [kind |-> "ignore", g |-> -1, n |-> <<>>]
+
+\* ---------------------------------------------------------------- one event: the calls in order
+\* walk state: [t, pend, pendk (the answers as the open finding S40 makes them), dls, uacc (a unicast frame was accepted in this event), setup, last (verdict of the last
+\* multicast-range frame, for the response of a listening call)]
+IsHeard(c) == c.c \in {"rx_single", "rx_cont"} /\ "out" \in DOMAIN c /\ c.out = "frame"
+NoVerdict == [kind |-> "none", g |-> -1, n |-> <<>>]
+
+HeardFrame(st, b) ==
+    IF ~StructOk(b) THEN st
+    ELSE LET f == Fields(b) IN
+         IF f.port \in McPorts THEN
+             LET v == Verdict(st.t, b) IN
+             IF v.kind = "accept" THEN
+                 [st EXCEPT !.t = [st.t EXCEPT ![v.g + 1].next = U32Inc(v.n)],
+                            !.dls = PushDl(st.dls, [port |-> f.port, data |-> DecryptFrm(b, st.t[v.g + 1].nwk, st.t[v.g + 1].app, v.n)]),
+                            !.last = v]
+             ELSE [st EXCEPT !.last = v]
+         ELSE IF prev.has = 1 /\ ~st.uacc /\ f.addr = prev.addr /\ ~IsUplinkMType(f.mtype) THEN
+             LET n == NextFcnt(prev.down, f.fcnt16) IN
+             IF n # <<>> /\ MicOk(b, prev.nwk, n) THEN
+                 IF f.port = SetupPort /\ Len(f.frm) > 0 THEN
+                     LET pl == DecryptFrm(b, prev.nwk, prev.app, n)
+                         r == SetupMessage(st.t, st.pend, pl, FALSE) IN
+                     [st EXCEPT !.t = r.t, !.pend = r.pend, !.pendk = SetupMessage(st.t, st.pendk, pl, TRUE).pend, !.uacc = TRUE, !.setup = r.setup]
+                 ELSE [st EXCEPT !.uacc = TRUE]
+             ELSE st
+         ELSE st
+
+Transmitted(st, b) ==
+    IF ~StructOk(b) \/ Fields(b).port # SetupPort THEN st
+    ELSE LET f == Fields(b)
+             obs == DecryptFrm(b, prev.nwk, prev.app, <<0, f.fcnt16>>) IN
+         IF Soft(IF st.pend # obs /\ st.pendk = obs /\ IsAllowed(SigDeleteAnsId) THEN Known(SigDeleteAnsId, obs)
+                 ELSE Chk("multicast set-up: the answers, in request order, are the payload of the FPort-200 uplink", st.pend, obs))
+         THEN [st EXCEPT !.pend = <<>>, !.pendk = <<>>] ELSE st
+
+RECURSIVE Walk(_, _, _)
+Walk(calls, i, st) ==
+    IF i > Len(calls) THEN st
+    ELSE LET c == calls[i] IN
+         Walk(calls, i + 1,
+              IF IsHeard(c) THEN HeardFrame(st, c.bytes)
+              ELSE IF c.c = "tx" /\ "bytes" \in DOMAIN c THEN Transmitted(st, c.bytes)
+              ELSE st)
+
+Judged(e) == e.ev \in {"a_proc", "a_rxc"} /\ e.resp.k \notin {"Panic", "Hang"}
+\* number of frames a listening call heard
+NHeard(e) == Len(SelectSeq(e.calls, IsHeard))
+
+EvCalls(e) ==
+    LET st0 == [t |-> grps, pend |-> pend, pendk |-> pend, dls |-> dls, uacc |-> FALSE, setup |-> -1, last |-> NoVerdict]
+        st == Walk(e.calls, 1, st0) IN
+    /\ Soft(ChkT(<<"multicast set-up: the answers are transmitted at once (an FPort-200 uplink follows the request)", st.pend>>,
+                 st.pend = <<>>))
+    \* what the call reports
+    /\ Soft(IF st.setup >= 0 THEN
+                /\ Chk("multicast set-up: a new group is reported", "Multicast", e.resp.k)
+                /\ (e.resp.k # "Multicast" \/ (Chk("multicast set-up: response kind", "new", e.resp.mk) /\ Chk("multicast set-up: group", st.setup, e.resp.g)))
+            ELSE IF e.ev = "a_rxc" /\ NHeard(e) = 1 /\ st.last.kind = "accept" THEN
+                /\ Chk(<<"C05 (multicast) fresh authentic frame of the group is accepted", st.last.n>>, "Multicast", e.resp.k)
+                /\ (e.resp.k # "Multicast" \/ (/\ Chk("C05 (multicast) response kind", "received", e.resp.mk)
+                                               /\ Chk("C05 (multicast) group", st.last.g, e.resp.g)
+                                               /\ Chk("C05 (multicast) accepted counter (32 bits)", st.last.n, e.resp.cnt)))
+            ELSE IF e.ev = "a_rxc" /\ NHeard(e) = 1 /\ st.last.kind = "atmax" THEN
+                \* the first counter beyond the life time: not accepted; the device may say that the group has expired
+                ChkT(<<"C05 (multicast) a frame at maxMcFCount is not accepted", e.resp.k>>,
+                     e.resp.k = "Pending" \/ (e.resp.k = "Multicast" /\ e.resp.mk = "expired"))
+            ELSE IF e.ev = "a_rxc" /\ NHeard(e) = 1 /\ st.last.kind = "ignore" THEN
+                \* replayed, stale, beyond the life time, of a deleted group, under another address or with a MIC that does not verify
+                Chk("C05 (multicast) a frame that is not fresh and authentic for a group is ignored", "Pending", e.resp.k)
+            ELSE TRUE)
+    /\ grps' = st.t /\ pend' = <<>> /\ dls' = st.dls
 
 EvGroup(e) ==
-    /\ Soft(/\ Chk("McAppSKey = aes128_encrypt(McKey, 0x01 | McAddr | pad16)", McAppSKeyOf(e.genappkey, e.keyenc, e.addr), e.app)
-            /\ Chk("McNetSKey = aes128_encrypt(McKey, 0x02 | McAddr | pad16)", McNetSKeyOf(e.genappkey, e.keyenc, e.addr), e.nwk))
-    /\ grp' = [on |-> TRUE, g |-> e.g, addr |-> e.addr, nwk |-> e.nwk, app |-> e.app, next |-> e.min, max |-> e.max]
-    /\ UNCHANGED dls
-
-\* verdict on one heard frame: [kind: "other" | "accept" | "atmax" | "ignore", n, f]
-Verdict(b) ==
-    IF ~StructOk(b) \/ Fields(b).port \notin McPorts THEN [kind |-> "other", n |-> <<>>]
-    ELSE LET f == Fields(b)
-             n == IF grp.on /\ f.addr = grp.addr THEN Rebuild(grp.next, f.fcnt16) ELSE <<>>
-             authentic == n # <<>> /\ MicOk(b, grp.nwk, n)
-         IN IF authentic /\ U32Lt(n, grp.max) THEN [kind |-> "accept", n |-> n]
-            ELSE IF authentic /\ n = grp.max THEN [kind |-> "atmax", n |-> n]
-            ELSE [kind |-> "ignore", n |-> <<>>]
-
-\* (a frame the device does not act upon is followed by the next listening call, which stays pending)
-Heard(e) == Len(e.calls) >= 1 /\ e.calls[1].c = "rx_cont" /\ e.calls[1].out = "frame"
-
-\* one heard frame per call
-EvRxc(e) ==
-    IF ~Heard(e) THEN UNCHANGED <<grp, dls>>
-    ELSE
-      LET b == e.calls[1].bytes
-          v == Verdict(b)
-          f == Fields(b) IN
-      CASE v.kind = "accept" ->
-             \* a frame of the group, fresh and inside the group's life time: accepted, exactly once
-             /\ Soft(/\ Chk(<<"C05 (multicast) fresh authentic frame of the group is accepted", f.fcnt16>>, "Multicast", e.resp.k)
-                     /\ Chk("C05 (multicast) response kind", "received", e.resp.mk)
-                     /\ Chk("C05 (multicast) group", grp.g, e.resp.g)
-                     /\ Chk("C05 (multicast) accepted counter (32 bits)", v.n, e.resp.cnt))
-             /\ grp' = [grp EXCEPT !.next = U32Inc(v.n)]
-             /\ dls' = PushDl(dls, [port |-> f.port, data |-> DecryptFrm(b, grp.nwk, grp.app, v.n)])
-        [] v.kind = "atmax" ->
-             \* the first counter beyond the life time: not accepted; the device may say that the group has expired
-             /\ Soft(ChkT(<<"C05 (multicast) a frame at maxMcFCount is not accepted", e.resp.k>>,
-                          e.resp.k = "Pending" \/ (e.resp.k = "Multicast" /\ e.resp.mk = "expired")))
-             /\ UNCHANGED <<grp, dls>>
-        [] v.kind = "ignore" ->
-             \* replayed, stale, beyond the life time, under another address or with a MIC that does not verify
-             /\ Soft(Chk(<<"C05 (multicast) a frame that is not fresh and authentic for the group is ignored", f.fcnt16, f.addr>>,
-                         "Pending", e.resp.k))
-             /\ UNCHANGED <<grp, dls>>
-        [] OTHER -> UNCHANGED <<grp, dls>>
+    LET g == grps[e.g + 1] IN
+    /\ Soft(/\ ChkT(<<"multicast set-up: the group the network set up is in the table", e.g>>, g.on)
+            /\ (~g.on \/ (/\ Chk("McAddr", e.addr, g.addr)
+                          /\ Chk("McAppSKey = aes128_encrypt(McKey, 0x01 | McAddr | pad16)", g.app, e.app)
+                          /\ Chk("McNetSKey = aes128_encrypt(McKey, 0x02 | McAddr | pad16)", g.nwk, e.nwk)
+                          /\ Chk("maxMcFCount", e.max, g.max))))
+    /\ UNCHANGED <<grps, pend, dls>>
 
 EvTakeDl(e) ==
     /\ Soft(Chk("C05 (multicast) delivered payloads", Rev(dls), [i \in 1..Len(e.got) |-> [port |-> e.got[i].port, data |-> e.got[i].data]]))
-    /\ dls' = <<>> /\ UNCHANGED grp
+    /\ dls' = <<>> /\ UNCHANGED <<grps, pend>>
 
 Match(e) ==
-    CASE e.ev = "reset" -> grp' = NoGroup /\ dls' = <<>>
-      [] e.ev = "mc_group" -> EvGroup(e)
-      [] e.ev = "a_rxc" -> EvRxc(e)
-      [] e.ev = "take_dl" -> EvTakeDl(e)
-      [] OTHER -> UNCHANGED <<grp, dls>>
+    CASE e.ev = "reset" -> grps' = NoGroups /\ pend' = <<>> /\ dls' = <<>> /\ gak' = (IF "genappkey" \in DOMAIN e THEN e.genappkey ELSE gak)
+      [] e.ev = "mc_group" -> EvGroup(e) /\ UNCHANGED gak
+      [] e.ev \in {"a_proc", "a_rxc"} /\ Judged(e) -> EvCalls(e) /\ UNCHANGED gak
+      [] e.ev = "take_dl" -> EvTakeDl(e) /\ UNCHANGED gak
+      [] OTHER -> UNCHANGED <<grps, pend, dls, gak>>
 
-Init == l = 1 /\ grp = NoGroup /\ dls = <<>>
-Next == l <= Len(Rec) /\ l' = l + 1 /\ Match(Rec[l])
+Init == l = 1 /\ grps = NoGroups /\ pend = <<>> /\ dls = <<>> /\ prev = [has |-> 0] /\ gak = McZero16
+Next == /\ l <= Len(Rec) /\ l' = l + 1 /\ Match(Rec[l])
+        /\ prev' = (IF "sess" \in DOMAIN Rec[l] THEN Rec[l].sess ELSE prev)
 Spec == Init /\ [][Next]_vars
 
 TraceAccepted ==
